@@ -390,3 +390,81 @@ class PureFunctions(object):
                        % (self.cls.name, name, fn.lineno, self.prefix, name, "".join("(%s : Int) " % p for p in params), term))
             self.names.add(name)
         return "\n".join(out)
+
+
+# ---------------------------------------------------------------------------------------------------------------------------------------------
+# Third mode: functions that APPEND integers to a list handed to them (`def f(self, v, data)`): the integer writers of the encoder.  The body is a
+# sequence of `data.append(<int expr>)`, calls `self.g(<int expr>, data)` of functions translated before, if / elif / else, raise.  Result type
+# `Py.Out` (Model/PyPrelude.lean): raised | wrote (bs : List Nat) — what was appended, in order.  Integer expressions are natural numbers with Lean's
+# own bit operations (`&&&`, `|||`, `>>>`, `<<<`): nothing is rewritten into arithmetic by the translator; the theorems do that.
+class AppendFunctions(object):
+    def __init__(self, source, classname, prefix, sink="data"):
+        self.tree = ast.parse(source)
+        self.cls = next(n for n in ast.walk(self.tree) if isinstance(n, ast.ClassDef) and n.name == classname)
+        self.prefix = prefix
+        self.sink = sink
+        self.names = set()
+
+    def nexpr(self, e, params):
+        if isinstance(e, ast.Constant) and isinstance(e.value, int) and not isinstance(e.value, bool) and e.value >= 0:
+            return "(%d : Nat)" % e.value
+        if isinstance(e, ast.Name) and e.id in params:
+            return e.id
+        if isinstance(e, ast.BinOp):
+            op = {ast.Add: "+", ast.BitAnd: "&&&", ast.BitOr: "|||", ast.RShift: ">>>", ast.LShift: "<<<"}.get(type(e.op))
+            if op is None:
+                raise Unsupported("operator in %s" % ast.unparse(e))
+            return "(%s %s %s)" % (self.nexpr(e.left, params), op, self.nexpr(e.right, params))
+        raise Unsupported("integer expression %s" % ast.unparse(e))
+
+    def test(self, e, params):
+        if isinstance(e, ast.Compare):
+            terms, left = [], e.left
+            for op, right in zip(e.ops, e.comparators):
+                sym = {ast.Lt: "<", ast.LtE: "≤", ast.Gt: ">", ast.GtE: "≥", ast.Eq: "=", ast.NotEq: "≠"}.get(type(op))
+                if sym is None:
+                    raise Unsupported("comparison %s" % ast.unparse(e))
+                terms.append("%s %s %s" % (self.nexpr(left, params), sym, self.nexpr(right, params)))
+                left = right
+            return "(" + " ∧ ".join(terms) + ")"
+        if isinstance(e, ast.BoolOp):
+            return "(" + (" ∧ " if isinstance(e.op, ast.And) else " ∨ ").join(self.test(v, params) for v in e.values) + ")"
+        raise Unsupported("test %s" % ast.unparse(e))
+
+    def stmt(self, s, params):
+        if isinstance(s, ast.Raise):
+            return "Py.Out.raised"
+        if isinstance(s, ast.Pass) or (isinstance(s, ast.Expr) and isinstance(s.value, ast.Constant)):
+            return "(Py.Out.wrote [])"
+        if isinstance(s, ast.Expr) and isinstance(s.value, ast.Call) and isinstance(s.value.func, ast.Attribute) and not s.value.keywords:
+            f, args = s.value.func, s.value.args
+            if isinstance(f.value, ast.Name) and f.value.id == self.sink and f.attr == "append" and len(args) == 1:
+                return "(Py.Out.wrote [%s])" % self.nexpr(args[0], params)
+            if (isinstance(f.value, ast.Name) and f.value.id == "self" and f.attr in self.names and len(args) >= 1
+                    and isinstance(args[-1], ast.Name) and args[-1].id == self.sink):
+                return "(%s%s %s)" % (self.prefix, f.attr, " ".join(self.nexpr(a, params) for a in args[:-1]))
+        if isinstance(s, ast.If):
+            return "(if %s then %s else %s)" % (self.test(s.test, params), self.block(s.body, params), self.block(s.orelse, params))
+        raise Unsupported("statement %s" % ast.unparse(s).split("\n")[0])
+
+    def block(self, stmts, params):
+        terms = [self.stmt(s, params) for s in stmts]
+        if not terms:
+            return "(Py.Out.wrote [])"
+        out = terms[-1]
+        for t in reversed(terms[:-1]):
+            out = "(Py.Out.andThen %s %s)" % (t, out)
+        return out
+
+    def translate(self, names):
+        out = []
+        for name in names:
+            fn = next(n for n in self.cls.body if isinstance(n, ast.FunctionDef) and n.name == name)
+            params = [a.arg for a in fn.args.args[1:]]
+            if not params or params[-1] != self.sink or fn.args.defaults:
+                raise Unsupported("%s does not take (..., %s)" % (name, self.sink))
+            params = params[:-1]
+            out.append("/-- `%s.%s` (line %d of the source): what it appends to `%s` -/\ndef %s%s %s: Py.Out :=\n  %s\n"
+                       % (self.cls.name, name, fn.lineno, self.sink, self.prefix, name, "".join("(%s : Nat) " % p for p in params), self.block(fn.body, params)))
+            self.names.add(name)
+        return "\n".join(out)
